@@ -34,7 +34,7 @@ SEPS = ["none", "comment", "blank"]
 
 def bounds(tier):
     return {"element_sets": len(ELEMSETS), "shell_patterns": len(SHELLPATS), "K": KS, "columns": NCOLS,
-            "number_styles": len(STYLES), "preambles": W.PREAMBLES, "separators": SEPS, "trailing_end": 2, "formats": 2, "nwchem_interior_lines": ["comment", "blank"],
+            "number_styles": len(STYLES), "preambles": W.PREAMBLES, "separators": SEPS, "trailing_end": 2, "formats": 2, "interior_lines_both_formats": ["comment", "blank"],
             "files_per_model": len(STYLES) * len(W.PREAMBLES) * len(SEPS) * 2 * 2,
             "models": "all %d" % (len(ELEMSETS) * len(SHELLPATS) * 9) if tier != "quick" else "Latin-square third"}
 
@@ -150,6 +150,9 @@ def evaluate(cfg):
                     check_parse(o, "parse_nwchem %s/%s pre=%s interior %s lines" % (es, cs, pre, interior),
                                 parsers.parse_nwchem, W.write_nwchem(basis, pre, "comment", True, interior=interior),
                                 model, "nwchem-interior-%s" % interior)
+                    check_parse(o, "parse_gbs %s/%s pre=%s interior %s lines" % (es, cs, pre, interior),
+                                parsers.parse_gbs, W.write_gbs(basis, pre, "comment", True, interior=interior),
+                                model, "gbs-interior-%s" % interior)
         return o
     if cfg["kind"] == "filehistory":
         return filehistory(o, cfg)
